@@ -43,8 +43,8 @@ def oracle(sc, o):
         out.append(("update recreate but PATCH issued", f"calls {methods}"))
     if die and ("POST" in methods or "PATCH" in methods):
         out.append(("deleteIfExists but POST/PATCH issued", f"calls {methods}"))
-    if sc["pre"] is not None and methods:
-        out.append(("preconditions did not pass but API was called", f"calls {methods}"))
+    if sc["pre"] is not None and (methods or o.get("lookups")):
+        out.append(("preconditions did not pass but API was called", f"calls {methods} kind lookups {o.get('lookups')}"))
     if (sc["live"] is None and not die and (c["readonly"] or not c["create_enabled"]) and sc["pre"] is None
             and sc.get("clean")):
         if any(x in MUT for x in methods):
@@ -60,7 +60,7 @@ def oracle(sc, o):
 def cells(ctx):
     flags = itertools.product([False, True], [False, True], [False, True], [False, True],
                               [["patch", 9], ["recreate", 11], ["never"]], [False, True],
-                              [None, ["Retry", 5], ["Skip"]], ["absent", "match", "drift", "noowner"])
+                              [None, ["Retry", 5], ["Skip"]], ["absent", "match", "drift", "noowner", "terminating"])
     for ro, owned, nsd, ce, upd, die, pre, live in flags:
         yield {"readonly": ro, "owned": owned, "namespaced": nsd, "create_enabled": ce, "update": upd,
                "delete_if_exists": die}, pre, live
@@ -89,8 +89,39 @@ def scenarios(ctx: Ctx):
                 sc["live_mode"] = live
             sc["cell"] = f"ro={cfgbias['readonly']} ce={cfgbias['create_enabled']} upd={cfgbias['update'][0]} die={cfgbias['delete_if_exists']} pre={pre is not None} live={live}"
             yield sc
+    # dynamic plural lookup (apiConfig.plural omitted) x precondition result
+    for pre in (None, ["Retry", 5], ["PermFail"]):
+        for ro in (False, True):
+            for _ in range(2 if ctx.quick() else 10):
+                sc = m.rand_scenario(ctx.rng)
+                m.clean_scenario(sc, ctx.rng)
+                sc["cfg"].update({"plural": None, "readonly": ro})
+                sc["lookup"] = "widgets"
+                sc["pre"] = pre
+                sc["cell"] = f"lookup pre={pre is not None} ro={ro}"
+                yield sc
     for _ in range(150 if ctx.quick() else 2500):
         yield m.rand_scenario(ctx.rng)
+
+
+def fault_scenarios(ctx: Ctx):
+    """the object appears between the read and the create (POST answered 409), and a failing read:
+    oracle only (the fault-free Coq model does not cover these; faults are property C09)"""
+    for upd in (["patch", 9], ["recreate", 11], ["never"]):
+        for owned in (False, True):
+            for _ in range(3 if ctx.quick() else 20):
+                sc = m.rand_scenario(ctx.rng)
+                m.clean_scenario(sc, ctx.rng)
+                sc["cfg"].update({"update": upd, "owned": owned, "readonly": False, "delete_if_exists": False,
+                                  "create_enabled": True, "plural": "widgets"})
+                sc["lookup"] = None
+                sc["pre"] = None
+                sc["live"] = None
+                sc["clean"] = False
+                yield sc, {1: ("http", 409)}
+                sc2 = dict(sc)
+                sc2["cfg"] = dict(sc["cfg"], kind=None)
+                yield sc2, {0: ("http", 500)}
 
 
 def run_one(ctx: Ctx, sc):
@@ -119,12 +150,29 @@ def run(ctx: Ctx):
         ctx.count("outcome:" + o["outcome"]["cls"])
         cases.append(sc)
         terms.append(m.c_case(sc, o))
+    for sc, faults in fault_scenarios(ctx):
+        obs, _ = m.run(sc, faults=faults)
+        o = obs[0]
+        if "prepare_failed" in o:
+            continue
+        ctx.count("faulted:" + ",".join(x["m"] for x in o["calls"]))
+        ctx.note_case({"cfg": sc["cfg"], "faults": {str(k): v[0] for k, v in faults.items()}}, nontrivial=True)
+        for sig, what in oracle(sc, o):
+            ctx.fail(Failure(signature=sig + " (after an API fault)", what=what, case={"scenario": sc, "faults": {str(k): list(map(str, v)) for k, v in faults.items()}},
+                             observed={"outcome": o["outcome"], "calls": [{k: v for k, v in c.items() if k != "raw_body"} for c in o["calls"]]}))
     if ctx.model_ok:
         ctx.correspond("reconcile_resource_function vs ResourceFn.reconcile_rf", "Corr_RF", cases, terms)
 
 
 def replay(ctx: Ctx, data):
     sc = data["case"] if "case" in data else data
+    if "scenario" in sc:      # a faulted case: oracle only
+        faults = {int(k): (v[0], int(v[1])) if v[0] == "http" else tuple(v) for k, v in sc["faults"].items()}
+        obs, _ = m.run(sc["scenario"], faults=faults)
+        for sig, what in oracle(sc["scenario"], obs[0]):
+            ctx.fail(Failure(signature=sig + " (after an API fault)", what=what, case=sc))
+        ctx.note_case(sc, True)
+        return
     o = run_one(ctx, sc)
     ctx.note_case(sc, True)
     if o is not None and ctx.model_ok:
